@@ -553,6 +553,9 @@ class C17Sched(object):
                 t = ch.draw(nthreads, 'preempt-thread')
                 s = 1 + ch.draw(max(1, solo_len[t]), 'preempt-step')
                 points.append((t, s, ch.draw(nthreads - 1, 'preempt-target')))
+            # the thread that starts is one that will be pre-empted: otherwise the starter runs to
+            # completion undisturbed and the schedule is sequential
+            first = points[0][0] if not brim else first
             policy = LocalPreempt(first, points, ch.draw(nthreads, 'finish-order'))
             sname = 'uniform'
         elif strategy == 1:
@@ -565,6 +568,9 @@ class C17Sched(object):
                 r = radii[ch.draw(4, 'radius')]
                 s = max(1, wp - r + ch.draw(2 * r + 1, 'offset'))
                 points.append((t, s, ch.draw(nthreads - 1, 'preempt-target')))
+            # the thread that starts is one that will be pre-empted: otherwise the starter runs to
+            # completion undisturbed and the schedule is sequential
+            first = points[0][0] if not brim else first
             policy = LocalPreempt(first, points, ch.draw(nthreads, 'finish-order'))
             sname = 'window'
         elif strategy == 2:
@@ -581,7 +587,7 @@ class C17Sched(object):
             points = maxgap
             sname = 'walk'
         else:
-            one_in = [1, 2, 3, 6][ch.draw(4, 'access-one-in')]
+            one_in = [1, 3, 10, 30][ch.draw(4, 'access-one-in')]
             policy = AccessWalk(ch, access_line_map(), one_in, first)
             points = one_in
             sname = 'access'
